@@ -8,10 +8,14 @@ Line protocol for C04.
 Request: `pr <own> <nodes> <S> <O> <rest>` (`prx …`: the same, the harness marks requests in
 which a supplied id is also produced by an operator)
 * `<nodes>`: `;`-separated node descriptors in id order: `V` (value), `C` (constant),
-  `O/<inputs>/<outputs>/<deterministic>` with `,`-separated ids and `_` for `None`;
+  `O/<inputs>/<outputs>/<tree>/<captureIds>` with `,`-separated ids and `_` for `None`; `<tree>` =
+  own `is_deterministic` flags of the operator and of every operator nested in its subgraphs
+  (`own.nsubgraphs(.nops(.tree)*)*`), from which the model computes the deep flag `DTree.deep`;
 * `<S>` ids supplied to `partial_run`, `<O>` requested outputs, `<rest>` ids supplied to the
   second `run` in addition to the returned leaves (`,`-separated, `-` = empty);
-* `<own>`: 1 = `S` is passed as owned values, 0 = as views.
+* `<own>`: 1 = all supplied values (to `partial_run` and to the composed `run`) are owned, 0 = views.
+`gp <nodes> <S> <O>`: `Graph::partial_run` on a graph built through the graph API (capture ids
+`≥` number of nodes = capture names that do not resolve); answer `ids=<leaf ids|->`.
 Answer: `ids=<leaf ids|-> final=<ok|err:class|panic>`, or `err:<class>` / `panic` when
 `partial_run` itself fails.  Values are abstract (`Unit`), every operator succeeds: the answer
 is the structural behaviour of `partial_run` followed by `run`.
@@ -26,14 +30,58 @@ def parseOptIds (s : String) : Option (List (Option Nat)) :=
   if s == "-" || s.isEmpty then some []
   else (s.splitOn ",").mapM (fun w => if w == "_" then some none else (w.toNat?).map some)
 
+mutual
+/-- `<tree>` in prefix-count encoding: `own.nsubgraphs(.nops(.tree)*)*`. -/
+def parseTree : Nat → List Nat → Option (DTree × List Nat)
+  | 0, _ => none
+  | f + 1, own :: n :: rest =>
+    match parseSubs f n rest with
+    | some (subs, r) => some (.node (own != 0) subs, r)
+    | none => none
+  | _, _ => none
+def parseSubs : Nat → Nat → List Nat → Option (List (List DTree) × List Nat)
+  | _, 0, r => some ([], r)
+  | 0, _, _ => none
+  | f + 1, k + 1, nops :: r =>
+    match parseOps f nops r with
+    | some (ops, r') =>
+      match parseSubs f k r' with
+      | some (subs, r'') => some (ops :: subs, r'')
+      | none => none
+    | none => none
+  | _, _, _ => none
+def parseOps : Nat → Nat → List Nat → Option (List DTree × List Nat)
+  | _, 0, r => some ([], r)
+  | 0, _, _ => none
+  | f + 1, k + 1, r =>
+    match parseTree f r with
+    | some (t, r') =>
+      match parseOps f k r' with
+      | some (ts, r'') => some (t :: ts, r'')
+      | none => none
+    | none => none
+end
+
+def parseTreeStr (s : String) : Option DTree :=
+  match (s.splitOn ".").mapM String.toNat? with
+  | some ns =>
+    match parseTree (ns.length + 1) ns with
+    | some (t, []) => some t
+    | _ => none
+  | none => none
+
 def parseNode (s : String) : Option Node :=
   if s == "V" then some .value
   else if s == "C" then some .constant
   else match s.splitOn "/" with
-    | ["O", i, o, d] => do
+    | ["O", i, o, d, c] => do
       let ins ← parseOptIds i
       let outs ← parseOptIds o
-      pure (.operator { inputs := ins, outputs := outs, deterministic := d == "1" })
+      let tree ← parseTreeStr d
+      let caps ← parseIds c
+      -- the IR's `deterministic` is the deep flag computed from the own flags
+      pure (.operator { inputs := ins, outputs := outs, captureIds := caps,
+                        deterministic := tree.deep })
     | _ => none
 
 def parseNodes (s : String) : Option (List Node) :=
@@ -74,12 +122,23 @@ def handle (line : String) : String :=
       match partialRun g (unitSem g) () (fun _ => ()) views owned outs with
       | .error e => showErr e
       | .ok leaves =>
-        let fin := run g (unitSem g) () (fun _ => ()) (leaves ++ rest.map (fun i => (i, ()))) [] outs
+        let finIn := leaves ++ rest.map (fun i => (i, ()))
+        let fin :=
+          if own == "1" then run g (unitSem g) () (fun _ => ()) [] finIn outs
+          else run g (unitSem g) () (fun _ => ()) finIn [] outs
         "ids=" ++ showIds (leaves.map (fun p => p.1)) ++ " final=" ++
           (match fin with
            | .ok _ => "ok"
            | .error e => showErr e)
     | _, _, _, _ => "bad-request"
+  | ["gp", ns, s, o] =>
+    match parseNodes ns, parseIds s, parseIds o with
+    | some nodes, some s, some outs =>
+      let g : Graph := { nodes := nodes }
+      match partialRun g (unitSem g) () (fun _ => ()) (s.map (fun i => (i, ()))) [] outs with
+      | .error e => showErr e
+      | .ok leaves => "ids=" ++ showIds (leaves.map (fun p => p.1))
+    | _, _, _ => "bad-request"
   | _ => "bad-request"
 
 end RtenVerif.Driver.C04
